@@ -182,6 +182,17 @@ def run_case(case, rec):
                 diffcols.append(c)
     rec.check("direct_equiv", same and not diffcols, what="tables differ from a cell built directly with the final compartment counts",
               columns=diffcols[:10], final_ncomp=nc, **tag)
+    # bookkeeping that decides parameter sharing must be that of a freshly built module as well
+    try:
+        import copy
+        c1, c2 = copy.deepcopy(cell), copy.deepcopy(direct)
+        c1.make_trainable("radius", verbose=False); c2.make_trainable("radius", verbose=False)
+        c1.branch(0).make_trainable("length", verbose=False); c2.branch(0).make_trainable("length", verbose=False)
+        shapes = lambda c: [(list(p)[0], tuple(np.asarray(list(p.values())[0]).shape), tuple(np.asarray(i).shape)) for p, i in zip(c.trainable_params, c.indices_set_by_trainables)]
+        rec.check("direct_equiv", shapes(c1) == shapes(c2), what="make_trainable on the whole cell shares parameters differently than on a directly built cell",
+                  got=str(shapes(c1)), want=str(shapes(c2)), controlled_by_param=cell.nodes["controlled_by_param"].tolist()[:20], final_ncomp=nc, **tag)
+    except (AssertionError, KeyError, ValueError) as e:
+        rec.refused("direct_equiv", e, where="make_trainable after set_ncomp")
     for backend in ("jaxley.stone", "jaxley.thomas", "jax.sparse"):
         try:
             o1 = rec.call("direct_equiv", simulate, cell, backend, where=f"after set_ncomp {backend}")
